@@ -644,11 +644,14 @@ C07_ReportedEqualsProgrammed ==
 \* C08: the pdrLookup entries of the session just established / modified carry exactly the filter its PDRs denote
 \* (inline SDF filter oriented by the PDR's direction, PFD-backed application id verbatim, malformed text ignored)
 C08_FilterMeansWhatItSays ==
-  (last.ev = "req" /\ last.kind \in {"estab", "mod"} /\ last.accepted) =>
+  (~OnUp4 /\ last.ev = "req" /\ last.kind \in {"estab", "mod"} /\ last.accepted) =>
      \/ \E sq \in SessQerChoices(sess[last.u]) : PdrImageOK(tables.pdr, last.u, sess[last.u], sq)
      \/ last.u \in Relaxed /\ PdrImageRelabelOK(tables.pdr, last.u, sess[last.u])
 \* a PFD Management Request is answered; the table it leaves (whole replacement on accept, unchanged on reject) is what
 \* later PDRs naming an application id are judged against by C08_FilterMeansWhatItSays
+\* on UP4 the filters are the applications entries (and the terminations keyed by their IDs)
+C08_Up4ApplicationsMeanWhatTheySay ==
+  (OnUp4 /\ AfterAcceptedSessionReq) => (U4!AppsOK(tables.up4, sess, cfg.up4) /\ U4!TermsOK(tables.up4, sess, cfg.up4))
 C08_PfdTableReplacedOrKept == (last.ev = "req" /\ last.kind = "pfd") => chk.one /\ chk.type
 C08_ProvisionedApplicationUsable == chk.mustAccept
 
@@ -740,8 +743,8 @@ C14_EndMarkersToOldTunnelOnce == chk.markers
 InEnvelope == chk.envelope
 \* ... and no two live PDRs have the same match key (they could not coexist in a wildcard-match table)
 MatchKey(u, p) == LET b == PdrBase(u, p, <<>>) IN <<b.iface, b.tip, b.teid, b.sip, b.dip, b.proto, p.flt.sports, p.flt.dports>>
-EnvDistinctMatchKeys ==
-  AfterAcceptedSessionReq =>
+EnvDistinctMatchKeys ==      \* (BESS: pdrLookup is one table for all sessions; on UP4 the envelope is Up4Envelope)
+  (AfterAcceptedSessionReq /\ ~OnUp4) =>
     \A u, v \in DOMAIN sess : \A i \in DOMAIN sess[u].pdrs : \A j \in DOMAIN sess[v].pdrs :
        (u # v \/ i # j) => MatchKey(u, sess[u].pdrs[i]) # MatchKey(v, sess[v].pdrs[j])
 
